@@ -12,8 +12,8 @@ const SPEC: Spec = Spec {
         "refint binary shift-subtract division is trusted; cross-checked against Python int on a transcript slice and self-checked by a = q*b + r on every pair",
         "x86_64 / 64-bit digits only (div_half path not built here)",
     ],
-    bounds_quick: "D1 Dense(S8,4)xDense(S8,3) (all APIs, 4 sign pairs); D2 every shift 0..63, one or two low digits, dividends Dense(S5,4); D3 Runs(S8,2,12)xRuns(S8,2,6); D4 constructed q*v+r for v in Dense(S8,3) normalised, q in Dense(S8,2), r in {0,1,v-1}, digit shifts 0..2; D5 zero divisor x pool; D6 scalar forms",
-    bounds_thorough: "D1 Dense(S8,4)xDense(S8,4) (all APIs, 4 sign pairs) + Dense(S8,5)xDense(S8,3) (core forms); D2 as quick; D3 Runs(S8,3,12)xRuns(S8,2,8); D4; D5; D6",
+    bounds_quick: "D1 Dense(S8,4)xDense(S8,3) (all APIs, 4 sign pairs); D2 every shift 0..63, one or two low digits, dividends Dense(S5,4); D3 Runs(S8,2,12)xRuns(S8,2,6); D4 constructed q*v+r for v in Dense(S8,3) normalised, q in Dense(S8,2), r in {0,1,v-1}, digit shifts 0..2; D5 zero divisor x pool; D6 scalar forms; D7 dense LCG digits, lengths <= 24 / <= 12, 3 x 10 members",
+    bounds_thorough: "D1 Dense(S8,4)xDense(S8,4) (all APIs, 4 sign pairs) + Dense(S8,5)xDense(S8,3) (core forms); D2 as quick; D3 Runs(S8,3,12)xRuns(S8,2,8); D4; D5; D6; D7 lengths <= 48 / <= 24",
     hang_secs: 120,
     probes: Some(probes),
     max_workers: 16,
@@ -553,6 +553,28 @@ fn body(ctx: &mut Ctx) {
         }
         // unnormalised versions of the same divisors: shift both by 1..63 bits would change digits; instead
         // divide every normalised v by 2 and 2^31 (top bit clear) with the same quotient family
+    }
+    // D7: dense LCG digits; the family's top digits cover many normalisation shifts
+    if ctx.space("D7") {
+        let (la_max, lb_max) = tier.pick((24usize, 12usize), (48, 24));
+        let mut o = 0u64;
+        for la in 1..=la_max {
+            for lb in 1..=lb_max.min(la) {
+                let take = ctx.mine(o);
+                o += 1;
+                if !take {
+                    continue;
+                }
+                for sa in 0..3u64 {
+                    for sb in 0..10u64 {
+                        let a = mk(&alpha::lcg_digits(la, 100 + sa));
+                        let b = mk(&alpha::lcg_digits(lb, sb));
+                        div_pair(ctx, &a, &b, la <= 8);
+                    }
+                }
+                ctx.sample(|| format!("dense LCG digits: len(a)={} len(b)={} x 3 dividends x 10 divisors (top digit shifted by 0,7,...,63 bits)", la, lb));
+            }
+        }
     }
     zero_divisor(ctx);
     scalar_forms(ctx);
